@@ -1505,6 +1505,14 @@ public:
         graphidToN_.at(*currNode) = 00;
 
         NToGraphid_.erase(nodeObject);
+
+        // a deleted node keeps no index either
+        typename std::map<Nref, NodeIndex>::iterator indexToForget = NToIndex_.find(nodeObject);
+        if (nodeObject != 00 && indexToForget != NToIndex_.end())
+        {
+          indexToN_.at(indexToForget->second) = 00;
+          NToIndex_.erase(indexToForget);
+        }
       }
     }
   }
